@@ -121,6 +121,14 @@ def _check_routine(ctx, rep, f: Func, level: str):
     for mode, body in branches.items():
         A, B = ("P_eq", "P_ineq") if mode == "eq_ineq" else ("P_ineq", "P_eq")
         env = {"x_prev": X, "p_prev": P, "q_prev": Qq}
+        for st0 in loop.body[:idx[0]]:
+            # locals bound earlier in the loop body (x_plus_p = x_prev + p_prev ...)
+            if isinstance(st0, ast.Assign) and len(st0.targets) == 1 and isinstance(st0.targets[0], ast.Name) and st0.targets[0].id not in env:
+                try:
+                    from ..symsum import expand_calls as _ec
+                    env[st0.targets[0].id] = eval_lin(_ec(ctx, f, st0.value), env, _proj_app(level))
+                except NotLinear:
+                    pass
         try:
             for st in body:
                 if isinstance(st, ast.Assign) and len(st.targets) == 1 and isinstance(st.targets[0], ast.Name):
@@ -232,38 +240,66 @@ def _check_routine(ctx, rep, f: Func, level: str):
     # ---- K4
     rets = returns(f)
     ok, why = True, []
+    after_loop = body_wo_doc(f.node)[body_wo_doc(f.node).index(loop) + 1:] if loop in body_wo_doc(f.node) else []
+    post_defs = {}
+    for st_ in after_loop:
+        for n_ in ast.walk(st_):
+            if isinstance(n_, ast.Assign) and len(n_.targets) == 1 and isinstance(n_.targets[0], ast.Name):
+                post_defs[n_.targets[0].id] = n_.value
+
+    def point_of(e):
+        """the returned point with locals bound after the loop written out"""
+        for _ in range(3):
+            if isinstance(e, ast.Name) and e.id in post_defs and e.id != "x_next":
+                e = post_defs[e.id]
+        return e
     for r in rets:
         v = r.value
-        pt = v.elts[0] if isinstance(v, ast.Tuple) else v
-        if unparse(pt) != "x_next":
-            ok = False
-            why.append("returns %s" % unparse(pt))
-    if level == "var":
-        conv = [s for s in body_wo_doc(f.node) if isinstance(s, ast.Assign) and unparse(s.targets[0]) == "x_next"
-                and isinstance(s.value, ast.Call) and "convert_stacked_vector_to_var" in unparse(s.value.func)]
-        good = False
-        if len(conv) == 1:
-            c = conv[0].value
-            fl = kwarg(c, "on_para_eq_constraint") or (c.args[2] if len(c.args) > 2 else None)
-            good = len(c.args) >= 2 and unparse(c.args[1]) == "x_next" and fl is not None and unparse(fl) == "on_para_eq_constraint" \
-                and body_wo_doc(f.node).index(conv[0]) > body_wo_doc(f.node).index(loop)
-        if not good:
-            ok = False
-            why.append("x_next is not converted back with convert_stacked_vector_to_var(c_sys, x_next, on_para_eq_constraint=<caller's flag>) after the loop")
-    rep.check(ok and bool(rets), "K4", f, "returned point", "last x' returned", "; ".join(why), node=rets[0] if rets else f.node)
+        pt = point_of(v.elts[0] if isinstance(v, ast.Tuple) else v)
+        if level == "object":
+            if unparse(pt) != "x_next":
+                ok = False
+                why.append("returns %s" % unparse(pt))
+        else:
+            c = pt
+            if isinstance(c, ast.Name) and c.id == "x_next" and "x_next" in post_defs:
+                c = post_defs["x_next"]
+            good = isinstance(c, ast.Call) and "convert_stacked_vector_to_var" in unparse(c.func) and len(c.args) >= 2 and unparse(c.args[1]) == "x_next"
+            if good:
+                fl = kwarg(c, "on_para_eq_constraint") or (c.args[2] if len(c.args) > 2 else None)
+                good = fl is not None and unparse(fl) == "on_para_eq_constraint"
+            if not good:
+                ok = False
+                why.append("returns %s; x_next is not converted back with convert_stacked_vector_to_var(c_sys, x_next, on_para_eq_constraint=<caller's flag>) "
+                           "after the loop" % unparse(pt)[:60])
+    rep.check(ok and bool(rets), "K4", f, "returned point", "last x' returned", "; ".join(sorted(set(why))), node=rets[0] if rets else f.node)
+    # history: the list stored under key 'p' / 'q' / 'x' / 'y' / 'error_value' receives p' / q' / x' / y' / the error value in every sweep
+    role_of = {"p_next": "p", "q_next": "q", "x_next": "x", "y_next": "y", "error_value": "error_value"}
     apps = {}
     for n in ast.walk(loop):
-        if isinstance(n, ast.Call) and isinstance(n.func, ast.Attribute) and n.func.attr == "append" and n.args:
-            apps[unparse(n.func.value)] = unparse(n.args[0])
-    want = {"ps": "p_next", "qs": "q_next", "xs": "x_next", "ys": "y_next", "error_values": "error_value"}
+        if isinstance(n, ast.Call) and isinstance(n.func, ast.Attribute) and n.func.attr == "append" and len(n.args) == 1 and unparse(n.args[0]) in role_of:
+            apps[unparse(n.func.value)] = role_of[unparse(n.args[0])]
+    want = set(apps)
     hist = None
     from ..astutil import dict_items
     for n in own_nodes(f.node):
         di = dict_items(n) if isinstance(n, (ast.Dict, ast.Call)) else None
         if di and "x" in di:
             hist = {k: unparse(v) for k, v in di.items()}
-    rep.check(apps == want and hist == {"p": "ps", "q": "qs", "x": "xs", "y": "ys", "error_value": "error_values"}, "K4", f, "history",
-              "ps/qs/xs/ys receive p', q', x', y'", "history lists receive %s; dict is %s" % (apps, hist), node=loop)
+    if hist is None or not apps:
+        rep.undecided("K4", f, "history", "history dictionary / appends of the iterates not found")
+    else:
+        # a key may hold the list itself (filled by name) or be filled through the dictionary (history['p'].append(...))
+        got = {}
+        for k_, v_ in hist.items():
+            got[k_] = apps.get(v_)
+        for L_, role in apps.items():
+            for k_ in hist:
+                if L_.replace('"', "'").endswith("['%s']" % k_):
+                    got[k_] = role
+        okh = all(got.get(k_) == k_ for k_ in ("p", "q", "x", "y", "error_value"))
+        rep.check(okh, "K4", f, "history", "the lists under p / q / x / y / error_value receive p', q', x', y' and the error value",
+                  "history keys receive %s (appends: %s)" % (got, apps), node=loop)
     # the sweep that ends the loop is recorded too: the history appends precede every exit of the iteration
     def top_index(node):
         for i, st in enumerate(loop.body):
